@@ -125,6 +125,35 @@ func TypeOf(e *Expr, alias map[string]*Expr) byte {
 // Eval evaluates e on env. A *ErrDomain error means "not defined by the
 // documentation"; no other error is returned.
 func Eval(e *Expr, env *Env) (Val, error) {
+	v, err := evalRec(e, env)
+	if err == nil && hasLooseNumber(v) {
+		return Val{}, dom("numeric text held by list(): its representation is not documented")
+	}
+	return v, err
+}
+
+// hasLooseNumber: the value is, or holds, numeric text that went through list()
+// (kind 'U'): list() may keep it as text or read it as a number. Only what does
+// not depend on that choice is defined: float() / int() of such an element, the
+// length of the list.
+func hasLooseNumber(v Val) bool {
+	if v.K == 'U' {
+		return true
+	}
+	for _, x := range v.L {
+		if hasLooseNumber(x) {
+			return true
+		}
+	}
+	for _, x := range v.J {
+		if hasLooseNumber(x) {
+			return true
+		}
+	}
+	return false
+}
+
+func evalRec(e *Expr, env *Env) (Val, error) {
 	switch e.K {
 	case "key":
 		return T(env.Key), nil
@@ -143,9 +172,9 @@ func Eval(e *Expr, env *Env) (Val, error) {
 		if !ok {
 			return Val{}, dom("unknown name " + e.S)
 		}
-		return Eval(d, env)
+		return evalRec(d, env)
 	case "not":
-		v, err := Eval(e.A[0], env)
+		v, err := evalRec(e.A[0], env)
 		if err != nil {
 			return v, err
 		}
@@ -156,13 +185,13 @@ func Eval(e *Expr, env *Env) (Val, error) {
 	case "bin":
 		return evalBin(e, env)
 	case "in":
-		l, err := Eval(e.A[0], env)
+		l, err := evalRec(e.A[0], env)
 		if err != nil {
 			return l, err
 		}
 		found := false
 		for _, it := range e.A[1:] {
-			r, err := Eval(it, env)
+			r, err := evalRec(it, env)
 			if err != nil {
 				return r, err
 			}
@@ -176,11 +205,11 @@ func Eval(e *Expr, env *Env) (Val, error) {
 		}
 		return Bo(found), nil
 	case "inx":
-		l, err := Eval(e.A[0], env)
+		l, err := evalRec(e.A[0], env)
 		if err != nil {
 			return l, err
 		}
-		r, err := Eval(e.A[1], env)
+		r, err := evalRec(e.A[1], env)
 		if err != nil {
 			return r, err
 		}
@@ -199,15 +228,15 @@ func Eval(e *Expr, env *Env) (Val, error) {
 		}
 		return Bo(found), nil
 	case "btw":
-		x, err := Eval(e.A[0], env)
+		x, err := evalRec(e.A[0], env)
 		if err != nil {
 			return x, err
 		}
-		lo, err := Eval(e.A[1], env)
+		lo, err := evalRec(e.A[1], env)
 		if err != nil {
 			return lo, err
 		}
-		hi, err := Eval(e.A[2], env)
+		hi, err := evalRec(e.A[2], env)
 		if err != nil {
 			return hi, err
 		}
@@ -230,7 +259,7 @@ func Eval(e *Expr, env *Env) (Val, error) {
 	case "call":
 		return evalCall(e, env)
 	case "idx":
-		a, err := Eval(e.A[0], env)
+		a, err := evalRec(e.A[0], env)
 		if err != nil {
 			return a, err
 		}
@@ -302,11 +331,11 @@ func compare(a, b Val) (int, error) {
 
 func evalBin(e *Expr, env *Env) (Val, error) {
 	op := strings.ToLower(e.Op)
-	l, err := Eval(e.A[0], env)
+	l, err := evalRec(e.A[0], env)
 	if err != nil {
 		return l, err
 	}
-	r, err := Eval(e.A[1], env)
+	r, err := evalRec(e.A[1], env)
 	if err != nil {
 		return r, err
 	}
@@ -482,7 +511,7 @@ func evalCall(e *Expr, env *Env) (Val, error) {
 	name := strings.ToLower(e.Op)
 	args := make([]Val, len(e.A))
 	for i, a := range e.A {
-		v, err := Eval(a, env)
+		v, err := evalRec(a, env)
 		if err != nil {
 			return v, err
 		}
@@ -515,7 +544,7 @@ func evalCall(e *Expr, env *Env) (Val, error) {
 		switch args[0].K {
 		case 'I':
 			return args[0], nil
-		case 'T':
+		case 'T', 'U':
 			if i, ok := ParseIntText(args[0].T); ok {
 				return I(i), nil
 			}
@@ -530,7 +559,7 @@ func evalCall(e *Expr, env *Env) (Val, error) {
 			return args[0], nil
 		case 'I':
 			return F(float64(args[0].I)), nil
-		case 'T':
+		case 'T', 'U':
 			if f, ok := ParseFloatText(args[0].T); ok {
 				return F(f), nil
 			}
@@ -659,7 +688,23 @@ func evalCall(e *Expr, env *Env) (Val, error) {
 					return Val{}, dom("list() of mixed kinds")
 				}
 				if _, ok := ParseFloatText(a.T); ok {
-					return Val{}, dom("list() of numeric text")
+					// numeric text: every argument must be such text, of one kind
+					// (all integers or all with a fraction); the list holds them
+					// in order, as text or as numbers (kind 'U')
+					_, firstInt := ParseIntText(args[0].T)
+					us := make([]Val, len(args))
+					for i, b := range args {
+						if b.K != 'T' || weird(b.T) {
+							return Val{}, dom("list() of mixed kinds")
+						}
+						_, isF := ParseFloatText(b.T)
+						_, isI := ParseIntText(b.T)
+						if !isF || isI != firstInt {
+							return Val{}, dom("list() of mixed kinds")
+						}
+						us[i] = Val{K: 'U', T: b.T}
+					}
+					return List(us), nil
 				}
 				if _, err := strconv.ParseFloat(strings.TrimSpace(a.T), 64); err == nil {
 					return Val{}, dom("list() of text some number syntax accepts (+5, 1e3, inf ...)")
